@@ -32,6 +32,12 @@ def slices(tier):
     sl["labels_only"] = dict(base, AttrVals="{0,1,2,3}", XS="{0}", YS="{0}", ParamSet="{%s}" % ", ".join(nopos), WideSet="{}")
     sl["lists"] = dict(base, XS="{-2,0,3}", YS="{0,1}", ParamSet="{%s}" % ", ".join(xy[:2] + ring[:1]), WideSet="{}", MaxObjs="3",
                        Sample="4000" if big else "400", PtsSet="{3,9}", ConfSet="{20,50,70}", AttrVals="{0,1,2,3}")
+    # bounds that lattice objects DO hit (even half units, 3-4-5 distances): "strictly inside" decided on the boundary itself.  Exact only for
+    # objects stored in base_link (integers), so this slice is replayed in that rendering only.
+    bnd = [fparams(T2, xmax="<<4,6>>", ymax="<<2,4>>"), fparams(T2, dmax="<<10,6>>", dmin="<<2,4>>"), fparams(T3, xmax="<<4,4,6>>", ymax="<<4,4,4>>", conf="<<20,50,20>>"),
+           fparams(T2, dmax="<<10,10>>", dmin="<<2,2>>")]
+    sl["boundary_exact"] = dict(base, XS="{-3,-2,0,1,2,3,4}", YS="{-2,0,1,2,3}" if big else "{0,1,2,3}", ParamSet="{%s}" % ", ".join(bnd), WideSet="{}", AttrVals="{0}", PtsSet="{3}",
+                                ConfSet="{20,50}")
     return sl
 
 
@@ -83,11 +89,14 @@ def replay_filter(arg):
 
     from ..build import vid
 
-    objs, is_gt, P, out = arg
+    objs, is_gt, P, out = arg[:4]
+    exact_only = len(arg) > 4 and arg[4]
     egos = pipeline._egos()
     has_pos = any(P[k] for k in ("xmax", "ymax", "dmax", "dmin"))
     renders = [("base_link", None, None), ("base_link", egos[0], egos[0].transforms()), ("map", egos[1], egos[1].transforms()), ("base_link:derived", None, None)]
-    if has_pos:
+    if exact_only:
+        renders = [("base_link", None, None)]
+    if has_pos and not exact_only:
         # a registry that has already served the map->ego direction under another ego pose and then had its pose replaced (what the library
         # itself does when it interpolates an evaluated frame): filtering sees the new pose only
         from perception_eval.common.schema import FrameID
@@ -159,9 +168,9 @@ def run(ctx: Ctx):
         ctx.log("tlc %s: %d states %.1fs" % (name, res.distinct, res.wall))
         states, _ = load_dump(res.dump_path, must_contain='phase = "done"')
         os.remove(res.dump_path)
-        items = [(plain(st["objs"]), st["isGT"], plain(st["P"]), plain(st["out"])) for st in states]
+        items = [(plain(st["objs"]), st["isGT"], plain(st["P"]), plain(st["out"]), name == "boundary_exact") for st in states]
         outs = pmap(replay_filter, items)
-        for (objs, is_gt, P, out), (n, mism) in zip(items, outs):
+        for (objs, is_gt, P, out, _x), (n, mism) in zip(items, outs):
             ctx.traces += n
             ctx.evaluations += n
             if 0 < len(out["kept"]) < len(objs) or any(o["label"] in ("unknown", "false_positive") for o in objs):
@@ -191,4 +200,5 @@ def run(ctx: Ctx):
         "_filter_objects is compared on the C03 scenes. Non-trivial = some but not all objects kept, or an unknown / FP-labelled object."
     )
     ctx.exhaustive = False
-    ctx.assumptions += ["bounds in odd half units on integer coordinates (no object on a boundary); mean bounds chosen with sum = 2 mod 4"]
+    ctx.assumptions += ["bounds in odd half units on integer coordinates (no object on a boundary; mean bounds chosen with sum = 2 mod 4) for every rendering that goes "
+                        "through a transform; objects exactly on a bound are decided in the base_link rendering only (slice boundary_exact)"]
